@@ -3,7 +3,7 @@
 # (patch applies; baseline tests pass with it; demo fails with it and passes without), stores under /verif/seeded/<Cxx_s>.
 set -u
 ID="$1"; SRC="/tmp/seed/$ID/.seed"
-export GOFLAGS=-mod=mod GOPROXY=off GOSUMDB=off GOTOOLCHAIN=local
+export GOFLAGS=-mod=mod GOPROXY=off GOSUMDB=off GOTOOLCHAIN=local GOCACHE=/tmp/confirm-gocache
 S=$(mktemp -d /tmp/confirm-XXXXXX); trap 'rm -rf "$S"' EXIT
 rsync -a --exclude .git /repo/ "$S/repo/"
 [ -f "$SRC/patch.diff" ] || { echo "NO PATCH"; exit 2; }
